@@ -33,6 +33,10 @@ package transport
 //@ func (c *pipelineConn) addQueueC(respChan chan *dnsmsg.Msg) (qid uint16, err error)
 //@   props C05
 //@   requires c != nil && pcInv(c)
+//@   ghost nAcq int = 0
+//@   oncall Lock?: nAcq = nAcq + 1
+//@   oncall RLock?: nAcq = nAcq + 1
+//@   ensures [C05:one-critical-section] nAcq == 1
 //@   modifies c.reserved, c.nextQid, obj(c.queue)
 //@   ensures pcInv(c)
 //@   ensures [C05:eol-never-wraps] old(c.nextQid) > 65535 ==> err == errPipelineConnEoL && c.nextQid == old(c.nextQid)
@@ -43,6 +47,10 @@ package transport
 //@ func (c *pipelineConn) getQueueC(qid uint16) (ch chan<- *dnsmsg.Msg)
 //@   props C05
 //@   requires c != nil
+//@   ghost nAcq int = 0
+//@   oncall Lock?: nAcq = nAcq + 1
+//@   oncall RLock?: nAcq = nAcq + 1
+//@   ensures [C05:one-critical-section] nAcq == 1
 //@   modifies nothing
 //@   ensures [C05:route-by-id] ch == c.queue[uint32(qid)]
 
@@ -54,6 +62,10 @@ package transport
 //@ func (c *pipelineConn) deleteQueueC(qid uint16)
 //@   props C05
 //@   requires c != nil && pcInv(c)
+//@   ghost nAcq int = 0
+//@   oncall Lock?: nAcq = nAcq + 1
+//@   oncall RLock?: nAcq = nAcq + 1
+//@   ensures [C05:one-critical-section] nAcq == 1
 //@   modifies obj(c.queue), c.closed
 //@   ensures pcInv(c)
 //@   ensures [C05:ids-never-reissued] c.nextQid == old(c.nextQid)
